@@ -30,6 +30,9 @@ Per target three sources; every source is a finite sequence with a stable index:
            Index order is "leading bytes major" so that contiguous index ranges share their leading bytes
            (the checks de-duplicate the decoded byte strings inside a shard).
 
+  x86stack x86 only: prefix stacks (segment x 66 x 67 x F3/F2/LOCK x REX) in front of string / lockable / SSE opcodes
+           x ModRM forms - see X86Stack.
+
 Everything is a pure function of (target, source, dims, index) and of the curated files.
 """
 from __future__ import annotations
@@ -395,6 +398,61 @@ class Cube(object):
 
 
 # ---------------------------------------------------------------------------------------------
+# x86 prefix stacks: segment override x operand-size x address-size x F3/F2/LOCK x REX in front of the opcode families
+# whose meaning depends on the stack: string instructions (REP/REPE/REPNE), lockable read-modify-write instructions,
+# SSE opcodes whose 66/F2/F3 prefix is part of the opcode.  Stack order: segment, 66, 67, F3|F2|F0, REX (the decoder
+# treats a 66/F2/F3 as "mandatory" only when it is the last legacy prefix).
+
+XS_SEG = [b"", b"\x64", b"\x2e", b"\x65", b"\x36", b"\x3e", b"\x26"]
+XS_OPSZ = [b"", b"\x66"]
+XS_ADSZ = [b"", b"\x67"]
+XS_MAND = [b"", b"\xf3", b"\xf2", b"\xf0"]
+XS_REX = {16: [b""], 32: [b""], 64: [b"", b"\x48", b"\x44", b"\x41"]}
+XS_OPS = {
+    # no ModRM
+    "string": ["6c", "6d", "6e", "6f", "a4", "a5", "a6", "a7", "aa", "ab", "ac", "ad", "ae", "af"],
+    # ADD OR AND SUB XOR XCHG INC/DEC(/0) CMPXCHG XADD BTS
+    "lock": ["00", "01", "09", "21", "29", "31", "86", "87", "fe", "ff", "0fb0", "0fb1", "0fc0", "0fc1", "0fab"],
+    # MOVDQA/MOVDQU/MOVQ, PXOR, ADDxx, MOVUPx/MOVSx, MOVQ/MOVD, CVTxx, SQRTxx, MOVLPx/MOVDDUP, PSHUFB, ADDSUBPx
+    "sse": ["0f6f", "0f7f", "0fef", "0f58", "0f10", "0f11", "0f7e", "0fd6", "0f2a", "0f51", "0f5a", "0fe6", "0f12",
+            "0f3800", "0fd0", "0f70"],
+}
+# ModRM forms, each completed so that every addressing form has its bytes: [reg], reg-reg, disp32 / RIP, SIB+disp8
+XS_MODRM = ["00", "c1", "0511223344", "442408"]
+XS_TAIL = bytes([0x10, 0x20, 0x30, 0x40, 0x50, 0x60, 0x70, 0x80])
+
+
+class X86Stack(object):
+    """dims: seg, opsz, adsz, mand, rex (counts: truncations of the XS_* menus), ops (tuple of XS_OPS class names),
+    modrm (count).  Index order: stack (seg, opsz, adsz, mand, rex) major, then opcode, then ModRM form."""
+
+    def __init__(self, name, dims):
+        self.t = t = Target(name)
+        assert t.kind == "x86"
+        self.dims = dict(dims)
+        self.seg = XS_SEG[:dims["seg"]]
+        self.opsz = XS_OPSZ[:dims["opsz"]]
+        self.adsz = XS_ADSZ[:dims["adsz"]]
+        self.mand = XS_MAND[:dims["mand"]]
+        self.rex = XS_REX[t.mode][:dims["rex"]]
+        self.modrm = [bytes.fromhex(m) for m in XS_MODRM[:dims["modrm"]]]
+        self.ops = []
+        for cls in dims["ops"]:
+            for o in XS_OPS[cls]:
+                forms = [b""] if cls == "string" else self.modrm
+                for m in forms:
+                    self.ops.append(bytes.fromhex(o) + m + XS_TAIL)
+        self.stacks = [a + b + c + d + e for a in self.seg for b in self.opsz for c in self.adsz
+                       for d in self.mand for e in self.rex]
+        self.group = len(self.ops)
+        self.n = len(self.stacks) * len(self.ops)
+
+    def item(self, i):
+        si, oi = divmod(i, len(self.ops))
+        return self.stacks[si] + self.ops[oi]
+
+
+# ---------------------------------------------------------------------------------------------
 # uniform access
 
 class Source(object):
@@ -406,6 +464,10 @@ class Source(object):
             self._c = Cube(name, dims)
             self.n, self.group = self._c.n, self._c.group
             self.item = self._c.item
+        elif kind == "x86stack":
+            self._c = X86Stack(name, dims)
+            self.n, self.group = self._c.n, self._c.group
+            self.item = self._c.item
         else:
             lst = {"curated": curated, "bitflip": bitflips, "bytesub": bytesubs}[kind](name)
             self._l = lst
@@ -414,7 +476,7 @@ class Source(object):
 
 
 def source(name, kind, dims=None):
-    key = ("src", name, kind, tuple(sorted((dims or {}).items())))
+    key = ("src", name, kind, tuple(sorted((k, tuple(v) if isinstance(v, list) else v) for k, v in (dims or {}).items())))
     if key not in _cache:
         _cache[key] = Source(name, kind, dims)
     return _cache[key]
@@ -667,6 +729,9 @@ def make_plan(bounds, targets, only=None):
         dims = bounds.get("cube", {}).get(name)
         if dims:
             out += shards(name, "cube", dims, bounds["shard"])
+        dims = bounds.get("x86stack", {}).get(name)
+        if dims:
+            out += shards(name, "x86stack", dims, bounds["shard"])
     return out
 
 
@@ -681,6 +746,9 @@ def plan_sizes(bounds, targets):
         dims = bounds.get("cube", {}).get(name)
         if dims:
             d["cube"] = source(name, "cube", dims).n
+        dims = bounds.get("x86stack", {}).get(name)
+        if dims:
+            d["x86stack"] = source(name, "x86stack", dims).n
         out[name] = d
     return out
 
